@@ -6,6 +6,17 @@ src=/tmp/w/$pkg/verif
 cd /verif
 rsync -rcn --out-format='%n' --exclude='.build' --exclude='.lake' --exclude='.git' --exclude='evidence' --exclude='replays' --exclude='harness/go.mod' --exclude='harness/go.sum' --exclude='lean/PdfVerif/Generated' --exclude='MANIFEST.json' --exclude='lake-manifest.json' $src/ /verif/ | grep -v '/$' > /tmp/integrate-$pkg.list
 shared='^(check|setup.sh|checks.json|lean/Main.lean|lean/PdfVerif.lean|lean/lakefile.toml|harness/main.go|harness/rand.go|harness/wire.go|harness/unwire.go|AGENT_GUIDE.md|DESIGN.md|KNOWN_FINDINGS.txt|tools/extract/main.go|tools/mkmanifest.py|tools/seedtest.py|tools/integrate.sh|\.gitignore)$'
+# keep only files the package itself changed relative to the commit it was copied from
+base=${BASE:-9d51afed25737aed747836d456fdceba92b1ff61}
+: > /tmp/integrate-$pkg.own
+while read f; do
+  if git -C /verif cat-file -e $base:"$f" 2>/dev/null; then
+    if ! git -C /verif show $base:"$f" | cmp -s - "$src/$f"; then echo "$f" >> /tmp/integrate-$pkg.own; fi
+  else
+    echo "$f" >> /tmp/integrate-$pkg.own
+  fi
+done < /tmp/integrate-$pkg.list
+mv /tmp/integrate-$pkg.own /tmp/integrate-$pkg.list
 echo "== new/changed files"; grep -Ev "$shared" /tmp/integrate-$pkg.list
 echo "== shared files changed (merge by hand)"; grep -E "$shared" /tmp/integrate-$pkg.list
 if [ "$apply" = "--apply" ]; then
